@@ -249,6 +249,12 @@ def run(ctx):
         chosen = sorted(order[:800])
     else:
         chosen = range(len(U))
+    # the degenerate ones always, first: nothing at all, only star parameters
+    if ctx.shard == 0:
+        for params in ((), (('args', VA, None, None),), (('kwargs', VK, None, None),),
+                       (('args', VA, None, None), ('kwargs', VK, None, None)), (('a', PO, None, None),), (('a', KO, None, None),)):
+            for ret in (None, '1'):
+                check_signature(ctx, params, ret, rnd)
     idx = 0
     done = True
     for j in chosen:
